@@ -16,7 +16,7 @@ VERIF = os.path.dirname(os.path.dirname(os.path.abspath(__file__)))
 
 def main():
     root, tag = sys.argv[1], sys.argv[2]
-    want = [a.upper() for a in sys.argv[3:]]
+    want = [a.upper() for a in sys.argv[3:] if not a.startswith("--")]
     head = subprocess.run(["git", "-C", "/repo", "rev-parse", "--short", "HEAD"], capture_output=True, text=True).stdout.strip()
     for pid in sorted(os.listdir(root)):
         if want and pid not in want:
